@@ -277,7 +277,9 @@ func transformReplay(args []string) {
 
 			for i := 1; i <= c.Services; i++ {
 				svcs = append(svcs, map[string]interface{}{"id": fmt.Sprintf("s%d", i), "type": fmt.Sprintf("T%d", i),
-					"serviceEndpoint": []interface{}{"https://a.example/x", map[string]interface{}{"o": i}}, "priority": float64(i), "routingKeys": []interface{}{"r"}})
+					"serviceEndpoint": []interface{}{"https://a.example/x", map[string]interface{}{"o": i}}, "priority": float64(i), "routingKeys": []interface{}{"r"},
+					// members whose values are null / empty / zero are members too
+					"description": nil, "accept": []interface{}{}, "weight": 0.0, "label": ""})
 			}
 
 			if len(svcs) > 0 {
